@@ -127,13 +127,16 @@ def run_shard(desc):
                 part["inconclusive"].append("%s: %s" % (kind_, detail))
     elif kind == "tokenum":
         alphabet = ["1", "a", "not", "in", "+", "*", "(", ")", "[", "'x", "1.2.3", "1e5", "é", "f", ",", ";", "?", ":", "=", "!", "++", "\"s\""]
-        step = {"op": "enum", "alphabet": alphabet, "minlen": 0, "maxlen": arg, "shard": si, "nshards": nshards, "join": " ", "glue_call": True, "tok": True, "exec": True, "rt": False, "sample": 0, "cpu_budget_s": 20}
-        recs, events, extra = common.run_batch([step], wd, "tokenum-%d-%d-%s" % (arg, si, profile), profile, timeout=3600, max_restarts=0)
+        if arg >= 100:
+            # one token longer over a 15-symbol alphabet (operand, `not`, operators, delimiters, calls, unterminated string, malformed number)
+            alphabet, arg = ["1", "a", "not", "in", "+", "(", ")", "'x", "1e", "f", ",", "?", ":", "=", "++"], arg - 100
+        step = {"op": "enum", "alphabet": alphabet, "minlen": 0, "maxlen": arg, "shard": si % nshards, "nshards": nshards, "join": " ", "glue_call": True, "tok": True, "exec": True, "rt": False, "sample": 0, "cpu_budget_s": 20}
+        recs, events, extra = common.run_batch([step], wd, "tokenum-%d-%d-%d-%s" % (len(alphabet), arg, si, profile), profile, timeout=3600, max_restarts=0)
         en = (recs[0] or {}).get("enum", {})
         part["evaluations"] += en.get("n", 0)
-        C["tokenum_n"] = en.get("n", 0)
+        C["tokenum_n"] = C.get("tokenum_n", 0) + en.get("n", 0)
         if en:
-            part["classes"].add("tokenum:len<=%d" % arg)
+            part["classes"].add("tokenum:%d-symbols:len<=%d" % (len(alphabet), arg))
         for r in extra:
             if "viol" in r and r["viol"].startswith("panic"):
                 part["violations"].append(viol_from_record(r, "tokenum"))
@@ -298,6 +301,7 @@ def run(rep, tier):
     shards = [("enum", i, 16, L, "release") for i in range(16)]
     shards += [("enum", i, 4, 3, "verifdbg") for i in range(4)]
     shards += [("tokenum", i, 16, 4 if tier == "quick" else 5, "release") for i in range(16)]
+    shards += [("tokenum", 16 + i, 16, 105 if tier == "quick" else 106, "release" if i % 2 else "verifdbg") for i in range(16)]
     shards += [("arith", i, 8, 0, "release" if i % 2 else "verifdbg") for i in range(8)]
     ns = 16000 if tier == "quick" else 400000
     per = 1000 if tier == "quick" else 12500
